@@ -639,3 +639,21 @@ def r12(ctx, R):
     missing = set(PARAM_WRITES) - seen
     if missing:
         raise AnalysisError(f'C20.R12: tabled parameter writes not found any more: {sorted(missing)}')
+
+
+@rule('C20', 'C20.R13', 'levels are CONNECTED with their own transfer parameters too: connect_levels(l-1, l) receives entry l of the distributed base-transfer / space-transfer lists (not entry 0 or the undistributed description)', floor=3)
+def r13(ctx, R):
+    repo = ctx.repo
+    ci = repo.cls(STEP, 'Step')
+    fn = next(f for n_, f in ci.methods.items() if n_.endswith('__generate_hierarchy'))
+    w = f'{STEP}:Step.__generate_hierarchy'
+    R.fn(w)
+    calls = [c for c in ast.walk(fn) if isinstance(c, ast.Call) and ast.unparse(c.func) == 'self.connect_levels']
+    if len(calls) != 1:
+        raise AnalysisError(f'C20.R13: expected one connect_levels call, found {len(calls)}')
+    kw = {k.arg: ast.unparse(k.value) for k in calls[0].keywords}
+    loops = [l for l in walk_no_nested(fn) if isinstance(l, ast.For) and calls[0] in list(ast.walk(l))]
+    lv = ast.unparse(loops[0].target) if loops else 'l'
+    for key in ('base_transfer_params', 'space_transfer_class', 'space_transfer_params'):
+        R.check(kw.get(key) == f"descr_list[{lv}]['{key}']", f'__generate_hierarchy :: connect_levels gets {key} of level {lv}', w, f"descr_list[{lv}]['{key}']", kw.get(key))
+    R.check(kw.get('fine_level') == f'self.levels[{lv} - 1]' and kw.get('coarse_level') == f'self.levels[{lv}]', f'__generate_hierarchy :: level {lv} - 1 is the fine, level {lv} the coarse partner', w, f'fine_level=self.levels[{lv} - 1], coarse_level=self.levels[{lv}]', {k: kw.get(k) for k in ('fine_level', 'coarse_level')})
